@@ -57,7 +57,7 @@ func (gf *GaloisField) Divide(a, b int) int {
 	} else if a == 0 {
 		return 0
 	}
-	return gf.ALogTbl[(gf.LogTbl[a]-gf.LogTbl[b])%(gf.Size-1)]
+	return gf.ALogTbl[(gf.LogTbl[a]-gf.LogTbl[b]+gf.Size-1)%(gf.Size-1)]
 }
 
 func (gf *GaloisField) Invers(num int) int {
